@@ -48,6 +48,7 @@ type Engine struct {
 	nfresh    int
 	Warnings  []string
 	Fuel      int
+	sentinels map[string]*Term // error-typed package-level variables (assumed non-nil)
 	qmu       sync.Mutex
 	Grace     time.Duration // extra time for cvc5 once all z3 instances answered unknown
 	ceCache   map[string]map[string]any
